@@ -25,6 +25,11 @@ type FS struct {
 	ReadErr   map[string]error
 	WriteErr  map[string]error // returned before anything is written
 	NoSpaceAt map[string]int   // ENOSPC after this many bytes
+	// deployment layout: symbolic links (path -> target, relative targets are
+	// resolved against the link's directory) and mount points (a rename from
+	// one mount to another fails with EXDEV; everything else is "/")
+	links  map[string]string
+	Mounts []string
 	// history
 	Writes []WriteRec
 	Reads  []string
@@ -56,6 +61,72 @@ func (f *FS) Adopt(old *FS) {
 	for k, v := range old.files {
 		f.files[k] = &fileNode{data: append([]byte(nil), v.data...), mode: v.mode}
 	}
+	for k, v := range old.links {
+		f.PutSymlink(k, v)
+	}
+}
+
+// PutSymlink installs a symbolic link (driver use).
+func (f *FS) PutSymlink(path, target string) {
+	if f.links == nil {
+		f.links = map[string]string{}
+	}
+	f.links[path] = target
+}
+
+// resolve follows symbolic links.
+func (f *FS) resolve(path string) string {
+	for hops := 0; hops < 8; hops++ {
+		t, ok := f.links[path]
+		if !ok {
+			return path
+		}
+		if !strings.HasPrefix(t, "/") {
+			dir := "/"
+			if i := strings.LastIndex(path, "/"); i > 0 {
+				dir = path[:i+1]
+			}
+			t = dir + t
+		}
+		path = t
+	}
+	return path
+}
+
+// mountOf names the file system a path lives on.
+func (f *FS) mountOf(path string) string {
+	best := "/"
+	for _, m := range f.Mounts {
+		if (path == m || strings.HasPrefix(path, strings.TrimSuffix(m, "/")+"/")) && len(m) > len(best) {
+			best = m
+		}
+	}
+	return best
+}
+
+// TempDir replaces os.TempDir.
+func TempDir() string {
+	s := cur
+	if s == nil {
+		return os.TempDir()
+	}
+	if d := s.Boot.Env["TMPDIR"]; d != "" {
+		return d
+	}
+	return "/tmp"
+}
+
+// Lstat replaces os.Lstat.
+func Lstat(path string) (os.FileInfo, error) {
+	f := curFS()
+	if f == nil {
+		return os.Lstat(path)
+	}
+	if t, ok := f.links[path]; ok {
+		Yield(siteFS)
+		return fileInfo{name: path, size: int64(len(t)), mode: os.ModeSymlink | 0777}, nil
+	}
+	return Stat(path)
 }
 
 // Put installs a file directly (driver use).
@@ -119,7 +190,7 @@ func ReadFile(path string) ([]byte, error) {
 	if e, ok := f.ReadErr[path]; ok {
 		return nil, &fs.PathError{Op: "open", Path: path, Err: e}
 	}
-	n, ok := f.files[path]
+	n, ok := f.files[f.resolve(path)]
 	if !ok {
 		return nil, notExist("open", path)
 	}
@@ -140,10 +211,11 @@ func WriteFile(path string, data []byte, perm os.FileMode) error {
 	rec := WriteRec{Path: path, Len: len(data), StartSeq: f.s.Seq}
 	idx := len(f.Writes)
 	f.Writes = append(f.Writes, rec)
-	n, ok := f.files[path]
+	tgt := f.resolve(path)
+	n, ok := f.files[tgt]
 	if !ok {
 		n = &fileNode{mode: perm}
-		f.files[path] = n
+		f.files[tgt] = n
 	}
 	n.data = n.data[:0:0] // truncate
 	f.Writes[idx].Steps++
@@ -198,6 +270,7 @@ func OpenFile(path string, flag int, perm os.FileMode) (*File, error) {
 	if e, ok := f.WriteErr[path]; ok {
 		return nil, &fs.PathError{Op: "open", Path: path, Err: e}
 	}
+	path = f.resolve(path)
 	n, ok := f.files[path]
 	if ok && flag&os.O_CREATE != 0 && flag&os.O_EXCL != 0 {
 		return nil, &fs.PathError{Op: "open", Path: path, Err: syscall.EEXIST}
@@ -403,6 +476,10 @@ func Rename(oldpath, newpath string) error {
 	if e, ok := f.WriteErr[newpath]; ok {
 		return &os.LinkError{Op: "rename", Old: oldpath, New: newpath, Err: e}
 	}
+	if f.mountOf(oldpath) != f.mountOf(newpath) {
+		return &os.LinkError{Op: "rename", Old: oldpath, New: newpath, Err: syscall.EXDEV}
+	}
+	delete(f.links, newpath)
 	f.files[newpath] = n
 	delete(f.files, oldpath)
 	Yield(siteFS)
@@ -475,7 +552,7 @@ func CreateTemp(dir, pattern string) (*File, error) {
 		return &File{real: r, path: r.Name()}, nil
 	}
 	if dir == "" {
-		dir = "/tmp"
+		dir = TempDir()
 	}
 	for {
 		f.tempSeq++
@@ -522,7 +599,7 @@ func Stat(path string) (os.FileInfo, error) {
 		return os.Stat(path)
 	}
 	Yield(siteFS)
-	n, ok := f.files[path]
+	n, ok := f.files[f.resolve(path)]
 	if !ok {
 		return nil, notExist("stat", path)
 	}
